@@ -16,6 +16,9 @@ CONSTANTS
   MaxUpdates = 2
   MaxCalls = 3
   NPages = 2
+  ListenOwns = TRUE
+  ResubRace = TRUE
+  GenCheck = TRUE
   ModernUnsub = TRUE
   ForeignUnsub = TRUE
   Stepwise = TRUE
